@@ -280,6 +280,18 @@ def rule_names(c, prog):
 
     def zero_sep(v):
         return v == 0 or v == "\0" or v == (0,) or v == b"\0"
+    chain = [x["m"] for x in core.walk_fn(dec) if x.get("k") == "MethodCall"]
+    allowed = {"split", "filter", "map", "collect", "into", "is_empty", "to_vec", "to_owned", "into_iter", "iter"}
+    extra = [m for m in chain if m not in allowed]
+    if not extra:
+        c.ok(R, "tags:decode-chain")
+    else:
+        c.violation(R, "tags|decode|" + ",".join(sorted(set(extra))), f"Tags::decode applies {sorted(set(extra))} to the decoded list; decoding must be split-on-NUL / drop empties / from_utf8 only, otherwise members are lost or reordered (e.g. dedup drops a tag that appears twice in a row)", dec.sp, instance="tags:decode-chain")
+    echain = [x["m"] for x in core.walk_fn(enc) if x.get("k") == "MethodCall"]
+    if set(echain) <= {"join", "into_bytes", "as_bytes", "to_vec", "iter"}:
+        c.ok(R, "tags:encode-chain")
+    else:
+        c.violation(R, "tags|encode|" + ",".join(sorted(set(echain))), f"Tags::encode is no longer `members.join(NUL).into_bytes()` ({echain})", enc.sp, instance="tags:encode-chain")
     if any(zero_sep(v) for v in e_sep) and any(zero_sep(v) for v in d_sep):
         c.ok(R, "tags:separator")
     else:
